@@ -137,6 +137,14 @@ def gen_requests(seed, quick):
             pairs = rng.sample(pairs, min(len(pairs), per_op // 2)) + rng.sample(prod, min(len(prod), per_op))
         if len(pairs) > per_op * 3 // 2:
             pairs = rng.sample(pairs, per_op * 3 // 2)
+        if op != "expt":
+            # never sampled away: the full product of the representation boundaries (fixnum/bignum edge on both
+            # sides of zero, 32-bit edge) and every operand with its own negation
+            core = [Fraction(v) for v in (0, 1, -1, 2, -2, 3, 2 ** 31 - 1, 2 ** 31, -2 ** 31, -2 ** 31 - 1, 2 ** 62, -2 ** 62,
+                                          2 ** 63 - 1, 2 ** 63, 2 ** 63 + 1, -2 ** 63 + 1, -2 ** 63, -2 ** 63 - 1,
+                                          2 ** 64, -2 ** 64, 10 ** 30, -10 ** 30)]
+            pool = [Fraction(i) for i in ints] if op in INT_ONLY else allv
+            pairs = pairs + [(x, y) for x in core for y in core] + [(x, -x) for x in pool] + [(-x, x) for x in pool]
         for (x, y) in pairs:
             add(op, x, y)
     # specialised immediate paths: small non-negative literal on the right
